@@ -86,7 +86,7 @@ Definition mon_c05 (sc : scen) : list viol :=
    registration does not come from a verifying reply that strictly extends (expiry and slots) what was known;
    1405 a tower answered with a signature of another key and is not flagged (proof + misbehaving) at the next
    settle point; 1406 a request reached a tower after its misbehaviour proof was stored; 1407 the plugin did not
-   answer (crashed / wedged handler); 1408 a settle step ran into its cap (a retry loop never ends). *)
+   answer (crashed / wedged handler). *)
 Definition rr_rows (d : db) (t : N) : list row :=
   filter (fun r => N.eqb (col r C_registration_receipts_tower_id) t) (tbl d T_registration_receipts).
 Definition max_expiry (d : db) (t : N) : N :=
@@ -118,8 +118,7 @@ Definition c14_step (last : N) (m : m14) (ist : N * cstep) : m14 :=
     (if up && negb (ob_alive o) then [(1407, i, 0, 0)] else []) ++
     (if m4_up m && N.eqb (ss_res st) 2 &&
         (N.eqb k K_REG || N.eqb k K_REV || N.eqb k K_RETRY || N.eqb k K_ABANDON) then [(1407, i, ss_a st, 1)] else []) ++
-    (if N.eqb k K_START && negb (N.eqb (ss_res st) 0) then [(1407, i, 0, 2)] else []) ++
-    (if (N.eqb k K_SETTLE || N.eqb k K_WAKE) && N.eqb (ss_res st) 2 then [(1408, i, 0, 0)] else []) in
+    (if N.eqb k K_START && negb (N.eqb (ss_res st) 0) then [(1407, i, 0, 2)] else []) in
   (* every stored registration verifies; every NEW one comes from a verifying, extending reply of this window *)
   let rrs := tbl d T_registration_receipts in
   let v_sig := flat_map (fun r => if N.eqb (col r C_registration_receipts_signature) 1 then []
@@ -161,7 +160,10 @@ Definition c14_step (last : N) (m : m14) (ist : N * cstep) : m14 :=
   let proven0 := if N.eqb k K_ABANDON && N.eqb (ss_res st) 0 then filter (fun t => negb (N.eqb t (ss_a st))) (m4_proven m) else m4_proven m in
   let wk0 := if (N.eqb k K_ABANDON && N.eqb (ss_res st) 0) then filter (fun t => negb (N.eqb t (ss_a st))) (m4_wk m)
              else if N.eqb k K_KILL then [] else m4_wk m in
-  let v_after := flat_map (fun e => if memN (le_t e) proven0 && negb (N.eqb (le_ep e) 2) then [(1406, i, le_t e, le_l e)] else []) (ob_log o) in
+  (* (the register request of a `registertower` the USER issues against that tower is the user's own action) *)
+  let v_after := flat_map (fun e => if memN (le_t e) proven0 && negb (N.eqb (le_ep e) 2) &&
+                                       negb (N.eqb k K_REG && N.eqb (le_ep e) 0 && N.eqb (le_t e) (ss_a st))
+                                    then [(1406, i, le_t e, le_l e)] else []) (ob_log o) in
   let wk1 := fold_left (fun acc e => if N.eqb (le_ep e) 1 && N.eqb (le_cls e) A_WRONGKEY && negb (N.eqb k K_KILL)
                                      then set_add (le_t e) acc else acc) (ob_log o) wk0 in
   let settle := is_settle_step st || N.eqb i last in
@@ -188,7 +190,9 @@ Definition GIVEUP_SLACK_MS : N := 4000.
 (* 1301 two retry loops (duplicate sends of one locator within DUP_GAP_MS); 1302 flooding (no back-off);
    1303 pending data not delivered / tower not shown reachable within max-retry + auto-retry + slack after the
    tower recovered; 1304 a tower that keeps failing is not shown unreachable after max-retry + slack;
-   1305 retrytower accepted / refused against the documented states. *)
+   1305 retrytower accepted / refused against the documented states; 1306 a tower is still shown `temporary
+   unreachable` (= being retried) when a settle step reaches its cap of 2 x max-retry + interval + 3 s, i.e. long
+   after any retry loop must have delivered or given up: the status is not truthful / a loop never ends. *)
 
 (* absolute send list: (tower, locator, ms, epoch, notification-path?) *)
 Record send := mk_send { sd_t : N; sd_l : N; sd_ms : N; sd_epoch : N; sd_notif : bool; sd_fail : bool; sd_step : N }.
@@ -328,8 +332,12 @@ Definition c13_step (sc : scen) (m : m13) (ist : N * cstep) : m13 :=
       | Some s0 => if N.eqb (ss_res st) 0 then [(1305, i, t, tower_status_code s0)] else []
       end
     else [] in
+  let v_cap :=
+    if (N.eqb k K_SETTLE || N.eqb k K_WAKE) && N.eqb (ss_res st) 2 && up && ob_alive o then
+      flat_map (fun kv : N * summary => match su_status (snd kv) with TemporaryUnreachable => [(1306, i, fst kv, 0)] | _ => [] end) (ob_lt o)
+    else [] in
   {| m3_tw := tws; m3_up := up; m3_prev := st; m3_have_prev := true; m3_pend_since := pend_since;
-     m3_out := m3_out m ++ v_deliver ++ v_giveup ++ v_gate |}.
+     m3_out := m3_out m ++ v_deliver ++ v_giveup ++ v_gate ++ v_cap |}.
 
 Definition mon_c13 (sc : scen) : list viol :=
   let steps := index_from 0 (sc_steps sc) in
